@@ -30,6 +30,50 @@ func Picker(x *vfkit.X) vfsched.Picker {
 	}
 }
 
+// Opts tunes PickerWith.
+type Opts struct {
+	PreemptPct  int  // percentage of decisions that pre-empt inside an operation (default 30)
+	MaxYields   int  // a pre-empting decision runs 1..MaxYields yield points (default 12)
+	AvoidRepick bool // never hand the baton straight back to the thread that was just pre-empted
+}
+
+// PickerWith is Picker with tunable shape. Long operations (tens of yield points) need a
+// MaxYields that covers them, otherwise a window late in the operation can only be reached
+// by two consecutive pre-emptions of the same thread.
+func PickerWith(x *vfkit.X, o Opts) vfsched.Picker {
+	if o.PreemptPct <= 0 {
+		o.PreemptPct = 30
+	}
+	if o.MaxYields <= 0 {
+		o.MaxYields = 12
+	}
+	last := -1
+	return func(runnable []*vfsched.Thread) (int, int) {
+		cand := runnable
+		if o.AvoidRepick && last >= 0 && len(runnable) > 1 {
+			cand = cand[:0:0]
+			for _, t := range runnable {
+				if t.ID != last {
+					cand = append(cand, t)
+				}
+			}
+		}
+		pick := cand[x.Choose("thread", len(cand))]
+		idx := 0
+		for i, t := range runnable {
+			if t == pick {
+				idx = i
+			}
+		}
+		if x.Choose("budgetKind", 100) >= o.PreemptPct {
+			last = -1
+			return idx, -1
+		}
+		last = pick.ID
+		return idx, 1 + x.Choose("yields", o.MaxYields)
+	}
+}
+
 // Op is one completed operation of a concurrent history: invoked at logical time
 // Inv, returned at Ret (Inv < Ret; times are unique).
 type Op struct {
